@@ -68,6 +68,39 @@ Theorem build_maxlen ks B m :
   build ks B = inl m -> m_maxlen m = fold_left (fun acc f => Nat.max acc (length f)) B 0.
 Proof. intros H. unfold build in H. apply build_from_spec in H. destruct H as [_ H]. exact H. Qed.
 
+(* the widest B record *)
+Definition widest (B : list rec) : nat := fold_left (fun acc f => Nat.max acc (length f)) B 0.
+
+Lemma fold_max_ge : forall (B : list rec) n, n <= fold_left (fun acc f => Nat.max acc (length f)) B n.
+Proof. induction B as [|f B IH]; intros n; cbn [fold_left]; [lia|]. specialize (IH (Nat.max n (length f))). lia. Qed.
+
+Lemma fold_max_bound : forall (B : list rec) n w, n <= w -> Forall (fun f => length f <= w) B ->
+  fold_left (fun acc f => Nat.max acc (length f)) B n <= w.
+Proof.
+  induction B as [|f B IH]; intros n w Hn HB; cbn [fold_left]; [exact Hn|].
+  inversion HB as [|x l Hx Hl]; subst. apply IH; [lia | assumption].
+Qed.
+
+Lemma widest_rect (B : list rec) w : Forall (fun f => length f = w) B -> widest B <= w.
+Proof.
+  intros H. apply fold_max_bound; [lia|]. eapply Forall_impl; [|exact H]. cbn beta. intros f Hf. lia.
+Qed.
+
+(* the adjustment of shallow_parse_input_query after build(): buckets untouched, the null-record width raised to the header's *)
+Lemma widen_buckets jh m : m_buckets (widen jh m) = m_buckets m.
+Proof. destruct jh; reflexivity. Qed.
+
+Lemma widen_maxlen jh m :
+  m_maxlen (widen jh m) = Nat.max (m_maxlen m) (match jh with Some n => n | None => 0 end).
+Proof. destruct jh as [n|]; cbn; [reflexivity | lia]. Qed.
+
+Lemma widen_none m : widen None m = m.
+Proof. reflexivity. Qed.
+
+Theorem widen_build_maxlen ks B m jh :
+  build ks B = inl m -> m_maxlen (widen jh m) = Nat.max (widest B) (match jh with Some n => n | None => 0 end).
+Proof. intros H. rewrite widen_maxlen, (build_maxlen ks B m H). reflexivity. Qed.
+
 (* build fails exactly at the first B record lacking a key field, and names it *)
 Lemma build_from_error ks : forall B nr m bnr,
   build_from ks B nr m = inr bnr ->
@@ -100,4 +133,76 @@ Theorem get_rhs_strict m k :
   /\ (length (get_join_records (m_buckets m) k) <> 1 -> get_rhs JStrict m k = Err (XRuntime 3)).
 Proof.
   unfold get_rhs. destruct (get_join_records (m_buckets m) k) as [|x [|y l]]; cbn; split; intros H; try reflexivity; try lia; congruence.
+Qed.
+
+(* LEFT JOIN over the map the engine works with (build, then the header adjustment): the matches, or one all-None
+   record as wide as the widest of: the B records, the join header *)
+Theorem get_rhs_left_widened ks B m jh k :
+  build ks B = inl m ->
+  get_rhs JLeft (widen jh m) k =
+    Ok (match get_join_records (m_buckets m) k with
+        | [] => let n := Nat.max (widest B) (match jh with Some n => n | None => 0 end) in [BRec None n (repeat ANone n)]
+        | ms => map binfo_of ms
+        end).
+Proof.
+  intros H. rewrite get_rhs_left, widen_buckets, (widen_build_maxlen ks B m jh H). reflexivity.
+Qed.
+
+(* the widening changes nothing for INNER and STRICT LEFT *)
+Theorem get_rhs_widen_other jk jh m k : jk <> JLeft -> get_rhs jk (widen jh m) k = get_rhs jk m k.
+Proof. intros H. destruct jk; [| congruence |]; unfold get_rhs; rewrite widen_buckets; reflexivity. Qed.
+
+(* ... and for LEFT JOIN whenever the key has a partner, or no header is wider than every B record *)
+Theorem get_rhs_widen_matched jh m k :
+  get_join_records (m_buckets m) k <> [] -> get_rhs JLeft (widen jh m) k = get_rhs JLeft m k.
+Proof.
+  intros H. rewrite !get_rhs_left, widen_buckets. destruct (get_join_records (m_buckets m) k); [congruence | reflexivity].
+Qed.
+
+Theorem widen_only_null_record jh m k :
+  m_buckets (widen jh m) = m_buckets m
+  /\ (forall jk, jk <> JLeft -> get_rhs jk (widen jh m) k = get_rhs jk m k)
+  /\ (get_join_records (m_buckets m) k <> [] -> get_rhs JLeft (widen jh m) k = get_rhs JLeft m k)
+  /\ widen None m = m.
+Proof.
+  split; [apply widen_buckets|]. split; [intros jk H; apply get_rhs_widen_other; exact H|].
+  split; [apply get_rhs_widen_matched | reflexivity].
+Qed.
+
+(* every bucket entry of a built map is a B record with its own field count *)
+Lemma matches_from_in ks : forall B nr k e, In e (matches_from ks nr B k) -> exists f, In f B /\ snd e = f.
+Proof.
+  induction B as [|f B IH]; intros nr k e H; [destruct H|].
+  unfold matches_from in H. cbn [number_from flat_map] in H. apply in_app_or in H. destruct H as [H|H].
+  - destruct (rhs_key ks (S nr) f) as [k'|x]; [|destruct H]. destruct (key_eqb k k'); [|destruct H].
+    destruct H as [<-|[]]. exists f. split; [left; reflexivity | reflexivity].
+  - destruct (IH (S nr) k e H) as [g [Hg He]]. exists g. split; [right; assumption | assumption].
+Qed.
+
+Lemma build_bucket_in ks B m k e :
+  build ks B = inl m -> In e (get_join_records (m_buckets m) k) -> exists f, In f B /\ snd e = f.
+Proof. intros H Hin. rewrite (build_matches ks B m k H) in Hin. exact (matches_from_in ks B 0 k e Hin). Qed.
+
+(* LEFT JOIN against a RECTANGULAR join table whose records are as wide as its header (this includes the join table
+   with a header and NO records): every b-side an A record is paired with - a matching B record or the all-None
+   record - has exactly one field per name of the join header; and there is at least one b-side *)
+Theorem left_join_rect_width ks B m w k bs :
+  build ks B = inl m -> Forall (fun f => length f = w) B ->
+  get_rhs JLeft (widen (Some w) m) k = Ok bs ->
+  bs <> [] /\ Forall (fun b => match b with BRec _ nf r => nf = w /\ length r = w | _ => False end) bs.
+Proof.
+  intros H HB Hg. rewrite (get_rhs_left_widened ks B m (Some w) k H) in Hg. injection Hg as <-.
+  destruct (get_join_records (m_buckets m) k) as [|e ms] eqn:E.
+  - cbn zeta. pose proof (widest_rect B w HB) as Hw. replace (Nat.max (widest B) w) with w by lia.
+    split; [discriminate|]. constructor; [|constructor]. split; [reflexivity | apply repeat_length].
+  - split; [discriminate|]. rewrite Forall_forall. intros b Hb. change (In b (map binfo_of (e :: ms))) in Hb. apply in_map_iff in Hb. destruct Hb as [e' [<- Hin]].
+    rewrite <- E in Hin. pose proof Hin as Hin2. rewrite (build_matches ks B m k H) in Hin2.
+    destruct (build_bucket_in ks B m k e' H Hin) as [f [Hf He]].
+    rewrite Forall_forall in HB. specialize (HB f Hf).
+    (* the entry is (nr, length f, f) *)
+    assert (Hshape : exists nr, e' = (nr, length f, f)).
+    { clear -Hin2 He. unfold matches_spec in Hin2. apply in_flat_map in Hin2. destruct Hin2 as [[n g] [_ Hx]].
+      destruct (rhs_key ks n g) as [k'|x]; [|destruct Hx]. destruct (key_eqb k k'); [|destruct Hx].
+      destruct Hx as [<-|[]]. cbn in He. subst g. exists n. reflexivity. }
+    destruct Hshape as [nr ->]. cbn. split; assumption.
 Qed.
